@@ -83,9 +83,8 @@ def rule_clear(ctx: Ctx, rule: str = "C04.clear"):
                     continue
                 rest = syms[i + 1:]
                 kinds = [r.kind for r in rest]
-                if s.info["value"] == "BaseException*":
-                    # residual, by design of `except Exception`; the lock must still be released (C04.release)
-                    continue
+                # both classes of failure count: an `Exception`, and a `BaseException`-only one (KeyboardInterrupt, and above all the
+                # CancelledError of an ordinary `asyncio.wait_for` timeout) - events queued by the aborted run must not survive it (F41)
                 n += 1
                 ok = "HANDLER" in kinds and "CLEAR" in kinds and kinds.index("HANDLER") < kinds.index("CLEAR")
                 rep.check(ok, rule, s.ev.loc(), f"{eng.name}: a failing event empties the queue (pending events are dropped, not run later)",
